@@ -14,7 +14,9 @@ Next == t + Shards <= N /\ t' = t + Shards
 Spec == Init /\ [][Next]_t
 
 Judge ==
-  LET r     == Trace[t]
+  LET r0    == Trace[t]
+      U(x)  == [x EXCEPT !.tree = Unflat(@)]
+      r     == [r0 EXCEPT !.want = Unflat(@), !.r00 = U(@), !.r10 = U(@), !.r01 = U(@), !.r11 = U(@), !.ra = U(@)]
       fails == C13_Failures(r)
   IN fails = {} \/ PrintT(<<"FAIL", r.id, fails>>)
 
